@@ -236,6 +236,16 @@ Definition dispatch_hash (c : mcfg) (op : tok) (args : list tok) : option (list 
         end
     | _ => Some bad
     end
+  else if is_sym op "debugf" then
+    (* Debug ({:?} and {:#?}) of the hash, of its parts and of a Result holding it: returns normally (the text is not modelled) *)
+    match args with
+    | [vt; TB bin] =>
+        match variant_of vt with
+        | Some v => Some (with_hash c v bin (fun _ => [S "ok"]))
+        | _ => Some bad
+        end
+    | _ => Some bad
+    end
   else if is_sym op "displayf" then
     (* Display under formatter flags ({:>80}, {:.10}, {:^150}, {:*<5}, {:08}): the implementation writes the text with
        write_str, which ignores width, fill, alignment and precision -- five times the same text *)
@@ -383,6 +393,14 @@ Fixpoint run_hist (gc : gcfg) (v : variant) (fuel : nat) (ops : list tok) (stack
           match rest with
           | TN bits :: rest' =>
               run_hist gc v fuel' rest' stack (acc ++ [show_gen_res (finalize_exec gc v (options_of bits) top)])
+          | _ => acc ++ [bad]
+          end
+        else if is_sym op "fo" then
+          (* one options object configured as <a>, then re-configured as <b>: the setters overwrite, so this is `f b`, and the object
+             equals a fresh one configured as <b> *)
+          match rest with
+          | TN _ :: TN bits :: rest' =>
+              run_hist gc v fuel' rest' stack (acc ++ [show_gen_res (finalize_exec gc v (options_of bits) top) ++ [TN 1]])
           | _ => acc ++ [bad]
           end
         else if is_sym op "fd" then
@@ -570,6 +588,22 @@ Definition dispatch_cmp (c : mcfg) (op : tok) (args : list tok) : option (list t
         end
     | _ => Some bad
     end
+  else if is_sym op "traits" then
+    (* derived trait behaviour of two hash values and of their parts: ==, !=, Clone, clone_from, Copy, Debug stability; == of the
+       checksum / length / Q-ratio / body parts *)
+    match args with
+    | [vt; TB a; TB b] =>
+        match variant_of vt with
+        | Some v =>
+            Some (with_hash c v a (fun ha => with_hash c v b (fun hb =>
+              let e := list_eqb (hash_bytes ha) (hash_bytes hb) in
+              [b01 e; b01 (negb e); TN 1; TN 1; TN 1; TN 1;
+               b01 (list_eqb (h_cks ha) (h_cks hb)); b01 (h_len ha =? h_len hb); b01 (h_q ha =? h_q hb);
+               b01 (list_eqb (h_body ha) (h_body hb)); TB (hash_bytes ha); TB (hash_bytes hb)])))
+        | None => Some bad
+        end
+    | _ => Some bad
+    end
   else if is_sym op "race" then
     match args with
     | [vt; TN k; TB a; TB b; TB data] =>
@@ -701,7 +735,8 @@ Fixpoint trace_of_script (fuel : nat) (buflen : N) (t : list tok) : option (list
             | _ => None
             end
           else if is_sym op "i" then option_map (cons RInterrupted) (trace_of_script f buflen rest)
-          else if is_sym op "e" then
+          else if is_sym op "e" || is_sym op "eg" then
+            (* eg: the same hard error, carrying a GeneratorError value as its payload -- still the reader's I/O error *)
             match rest with
             | TS k :: r => match kind_index io_kinds k 0 with
                            | Some i => option_map (cons (RHard i)) (trace_of_script f buflen r)
@@ -778,8 +813,9 @@ Definition dispatch_easy (c : mcfg) (op : tok) (args : list tok) : option (list 
 
 (* ---- serde (mock serializer / deserializer events) ---- *)
 Definition sval_of (kind : tok) (payload : list N) : option sval :=
-  if is_sym kind "str" || is_sym kind "string" || is_sym kind "char" then Some (VStr payload)
-  else if is_sym kind "bytes" || is_sym kind "bytebuf" then Some (VBytes payload)
+  if is_sym kind "str" || is_sym kind "string" || is_sym kind "char" || is_sym kind "bstr" then Some (VStr payload)
+  else if is_sym kind "bytes" || is_sym kind "bytebuf" || is_sym kind "bbytes" then Some (VBytes payload)
+  else if is_sym kind "seq" || is_sym kind "newtype" || is_sym kind "some" then Some (VOther 0)
   else if is_sym kind "u8" || is_sym kind "u64" || is_sym kind "i64" || is_sym kind "f64" || is_sym kind "bool"
           || is_sym kind "unit" || is_sym kind "none" then Some (VOther 0)
   else None.
